@@ -55,7 +55,8 @@ def run(ck):
         evaluations += 2 * len(jobs)
         to_parse = []
         outs = []
-        for k, ((r, d, src, with_inc), lr) in enumerate(zip(jobs, lib)):
+        def do_job(arg):
+            k, (r, d, src, with_inc) = arg
             cwd = os.path.join(work, "j%d" % k)
             os.makedirs(cwd)
             srcfile = os.path.join(cwd, "prog.clsp")
@@ -63,7 +64,8 @@ def run(ck):
             o_run = tool(["run", "-O", "-i", inc, srcfile], cwd)
             o_run0 = tool(["run", "-i", inc, srcfile], cwd)
             trace = os.path.join(cwd, "trace.txt")
-            cl = tool(["cldb", "-O", "-i", inc, srcfile, "()"], cwd, env={"CHIALISP_VERIF_TRACE": trace}) if d != "classic" else ""
+            if d != "classic":
+                tool(["cldb", "-O", "-i", inc, srcfile, "()"], cwd, env={"CHIALISP_VERIF_TRACE": trace})
             cldb_prog = None
             if os.path.exists(trace):
                 for l in open(trace):
@@ -79,10 +81,13 @@ def run(ck):
                         cldb_prog0 = l.rstrip("\n").split("\t", 1)[1]
             # file-to-file
             outfile = os.path.join(cwd, "prog.hex")
-            p = subprocess.run([vlib.HARNESS_BIN, "atomic", "compile", srcfile, outfile, srcfile, inc], cwd=cwd, stdout=subprocess.PIPE, stderr=subprocess.PIPE, text=True)
+            subprocess.run([vlib.HARNESS_BIN, "atomic", "compile", srcfile, outfile, srcfile, inc], cwd=cwd, stdout=subprocess.PIPE, stderr=subprocess.PIPE, text=True)
             f2f = open(outfile).read().strip() if os.path.exists(outfile) else None
-            evaluations += 6
-            outs.append((o_run, o_run0, cldb_prog, cldb_prog0, f2f))
+            return (o_run, o_run0, cldb_prog, cldb_prog0, f2f)
+        import concurrent.futures
+        with concurrent.futures.ThreadPoolExecutor(max_workers=max(2, vlib.NPROC - 2)) as ex:
+            outs = list(ex.map(do_job, list(enumerate(jobs))))
+        evaluations += 6 * len(jobs)
         # parse the printed programs back to CLVM with the reader matching the producer
         plines = []
         pidx = []
